@@ -50,4 +50,37 @@ theorem rt_arith {X f r : Rat} (hX1 : -2251799813685248 ≤ X) (hX2 : X ≤ 2251
   simp only [Rat.abs] at e1 e2 ⊢
   grind
 
+theorem pow2_40_lit : pow2 40 = 1099511627776 := by decide
+theorem pow2_m11 : pow2 (-11) = 1 / 2048 := by rw [pow2_neg]; congr 1
+theorem pow2_m60 : pow2 (-60) = 1 / 1152921504606846976 := by rw [pow2_neg]; congr 1
+theorem eta_le' : pow2 (-1075) ≤ 1 / 1152921504606846976 := by
+  rw [← pow2_m60]; exact pow2_mono (by decide)
+
+theorem isFinite_scaleF : isFinite scaleF = true := by rw [scaleF_eq]; rfl
+theorem toRat_scaleF : toRat scaleF = 65536000000 := by rw [scaleF_eq]; rfl
+
+theorem natAbs_le_of_bounds {s : Int} {n : Int} (h1 : -(n : Rat) ≤ (s : Rat)) (h2 : (s : Rat) ≤ (n : Rat)) :
+    s.natAbs ≤ n.natAbs := by
+  rw [← Rat.intCast_neg] at h1
+  have := Rat.intCast_le_intCast.1 h1
+  have := Rat.intCast_le_intCast.1 h2
+  omega
+
+/-- pure arithmetic of freq -> scaled ppm -> freq: `p` exact product, `r` its rounding,
+    `S` the truncation, `g` the rounded quotient -/
+theorem rtf_arith {p r S g : Rat} (hp : p.abs ≤ 1099511627776)
+    (e1 : (r - p).abs ≤ p.abs / 9007199254740992 + 1 / 1152921504606846976)
+    (et : (S - r).abs < 1)
+    (e2 : (g - S / 65536000000).abs ≤ (S / 65536000000).abs / 9007199254740992 + 1 / 1152921504606846976) :
+    (g * 65536000000 - p).abs ≤ 1 + 1 / 2048 := by
+  simp only [Rat.abs] at hp e1 et e2 ⊢
+  grind
+
+theorem rtf_arith0 {p r S : Rat} (hp : p.abs ≤ 1099511627776)
+    (e1 : (r - p).abs ≤ p.abs / 9007199254740992 + 1 / 1152921504606846976)
+    (et : (S - r).abs < 1) :
+    r.abs ≤ 1099511627777 ∧ S.abs ≤ 1099511627778 := by
+  simp only [Rat.abs] at hp e1 et ⊢
+  grind
+
 end ScionTime.C18Float
